@@ -352,6 +352,7 @@ pub struct Sim {
     pub resume_phase: bool,
     /// Slots that had a structural operation since the last replication tick.
     pub struct_since_tick: BTreeMap<u8, u32>,
+    pub cev_last_seen: BTreeMap<(u64, CEv), u32>,
 }
 
 pub fn silent_panics() {
@@ -439,6 +440,7 @@ impl Sim {
             started_at: None,
             resume_phase: false,
             struct_since_tick: BTreeMap::new(),
+            cev_last_seen: BTreeMap::new(),
         }
     }
 
@@ -886,6 +888,12 @@ impl Sim {
                 }
                 None => w.client_trigger(CtTrig { seq }),
             },
+            CEv::Unord => {
+                w.send_event(CeUnord { seq });
+            }
+            CEv::Unrel => {
+                w.send_event(CeUnrel { seq });
+            }
         }
         self.cev.push(CEmit {
             seq,
@@ -1105,6 +1113,18 @@ impl Sim {
         }
         match dir {
             Dir::S2C => self.deliver_s2c(c, ch, msg, drop),
+            Dir::C2S if drop => {
+                // Unreliable client channel: the message is lost.
+                if let Some(k) = self.chans.cev_of(ch) {
+                    if let Ok(m) = wire::decode_cev(&msg.bytes, k) {
+                        if let Some(e) = self.cev.iter_mut().find(|e| e.seq == m.seq) {
+                            e.lost_in_flight = true;
+                        }
+                    }
+                }
+                self.stats.fault("drop_client_event");
+                self.fault_fired = true;
+            }
             Dir::C2S => self.deliver_c2s(c, ch, msg),
         }
         true
@@ -1457,12 +1477,20 @@ impl Sim {
             let ent = match o.kind {
                 CEv::Map => o.ent.map(|e| e.to_bits()),
                 CEv::Trig => o.ent.map(|e| e.to_bits()),
-                CEv::Ord => None,
+                CEv::Ord | CEv::Unord | CEv::Unrel => None,
             };
             // Server-side logic must never see an event attributed to a client that is not connected.
             let known = o.client == SERVER || self.clients.iter().any(|c| c.sess.as_ref().and_then(|s| s.ce) == Some(o.client));
             if !known {
                 self.violate("C09", "event_from_dead_client", format!("server observed client event seq {} from client entity {} which is not connected", o.seq, o.client));
+            }
+            if matches!(o.kind, CEv::Ord | CEv::Map | CEv::Trig) {
+                let key = (o.client.to_bits(), o.kind);
+                let last = self.cev_last_seen.get(&key).copied().unwrap_or(0);
+                if o.seq < last {
+                    self.violate("C05", "client_event_out_of_order", format!("server observed client event {:?} seq {} from {} after seq {last} of the same ordered channel", o.kind, o.seq, o.client));
+                }
+                self.cev_last_seen.insert(key, last.max(o.seq));
             }
             if let Some(e) = self.cev.iter_mut().find(|e| e.seq == o.seq) {
                 e.seen.push((o.client.to_bits(), ent));
